@@ -55,6 +55,29 @@ def abstract(cd, lang):
     return [classes, inhs]
 
 
+def abstract_cs(cd, lang):
+    """the abstract diagram as LanguageCsharp renders it: parameter types with their ref / out prefix (no const), defaults and array
+    extents through the C# helpers; constness of operations is passed on and erased by the model (UmlCs.cs_view)"""
+    classes = []
+    for cid, c in cd.classes.items():
+        ops = []
+        for op in c.OPERATIONS:
+            ps = []
+            for p in op.PARAMETERS:
+                t = lang.GetTypeAndNameFromMultiplicityAndModifier(c, p["type"].strip(), p["modifier"].strip(), p["multiplicity"].strip(), p["name"].strip())
+                direction = p["direction"].strip() if "direction" in p else ""
+                t0 = (("ref " if direction.find("inout") > -1 else ("out " if direction.find("out") > -1 else "")) + t[0]).lstrip()
+                dflt = "" if not p["defaultvalue"].strip() else lang.GetDefaultFormatFromMultiplicityAndModifier(
+                    c, p["modifier"].strip(), p["multiplicity"].strip(), p["defaultvalue"])
+                ext = lang.GetTypeAndNameFromMultiplicityAndModifier(c, p["type"].strip(), p["modifier"].strip(), p["multiplicity"].strip(), "")[1]
+                ps.append([t0, t[1], dflt, ext])
+            ret = lang.GetTypeAndNameFromMultiplicityAndModifier(c, op.RETURN_TYPE, op.RETURN_TYPE_MODIFIER, "", "")[0]
+            ops.append([op.NAME, op.VISIBILITY, ret, ps, bb(op.VIRTUAL), bb(op.IS_STATIC), bb(op.IS_CONST)])
+        classes.append([cid, c.NAME, c.NAMESPACE, bb(c.IS_ENUM), bb(c.IS_STRUCT), bb(c.AUTOGEN), bb(c.PURE_VIRTUAL_INTERFACE), ops])
+    inhs = [[i.CLASS_TO_ID, i.CLASS_FROM_ID, bb(i.IS_REALIZATION)] for i in cd.inheritence.values()]
+    return [classes, inhs]
+
+
 # ---------------------------------------------------------------- mutation of the object graph
 
 def retarget_types(cd, old, new):
@@ -371,6 +394,7 @@ def probe_names(label="TestClassDiagram"):
     names += ["empty-interface:" + c.NAME for c in cd.classes.values() if c.PURE_VIRTUAL_INTERFACE and c.OPERATIONS]
     names += ["redeclare-renamed-params", "nonconst-twin", "rename-to-interface-name"]
     names += ["long-member-names"]
+    names += ["virtual-word"]
     return names
 
 
@@ -433,6 +457,25 @@ def apply_probe(cd, probe):
             for n_, prm in enumerate(cp.PARAMETERS):
                 prm["name"] = "_own%d" % n_
             c.OPERATIONS.append(cp)
+            touched.append(c.NAME)
+        return sorted(set(touched))
+    if kind == "virtual-word":
+        # the first operation of every realised pure virtual interface is called virtualizeN (abstract, so that the keyword is written too)
+        # and gets a parameter called _virtualAddress: the word 'virtual' in names must survive realisation
+        touched, n = [], 0
+        for i in list(cd.inheritence.values()):
+            if not i.IS_REALIZATION or i.CLASS_TO_ID not in cd.classes or i.CLASS_FROM_ID not in cd.classes:
+                continue
+            c, itf = cd.classes[i.CLASS_TO_ID], cd.classes[i.CLASS_FROM_ID]
+            if not itf.PURE_VIRTUAL_INTERFACE or not itf.OPERATIONS or c.PURE_VIRTUAL_INTERFACE or c.AUTOGEN or c.IS_ENUM or c.IS_STRUCT:
+                continue
+            op = itf.OPERATIONS[0]
+            if not op.NAME.startswith("virtualize"):
+                op.NAME = "virtualize%d" % n
+                op.VIRTUAL = True
+                op.IS_STATIC = False
+                op.PARAMETERS.append({"const": "", "type": "int", "name": "_virtualAddress", "modifier": "", "defaultvalue": "", "multiplicity": "", "direction": "in"})
+                n += 1
             touched.append(c.NAME)
         return sorted(set(touched))
     if kind == "nonconst-twin":
@@ -649,6 +692,57 @@ def definitions(source_text):
         if m and "=" not in m.group("ret"):
             res.append({"cls": m.group("cls"), "name": m.group("name"), "params": norm_params(m.group("params")),
                         "const": bool(m.group("const")), "ret": " ".join(m.group("ret").split()), "line": line.strip()})
+    return res
+
+
+# ---------------------------------------------------------------- reading generated C# (there is no C# compiler here: a tokenizer)
+
+CS_MEMBER = re.compile(r"^(?P<vis>public|protected|private|internal)\s+(?P<mods>(?:(?:static|virtual|override|abstract|sealed|new)\s+)*)"
+                       r"(?P<ret>.*?)(?P<name>~?\w+)\s*\((?P<params>.*)\)\s*(?P<semi>;?)\s*$")
+CS_TYPE = re.compile(r"^public\s+(?P<kw>class|interface|enum|struct)\s+(?P<rest>.*)$")
+
+
+def cs_scan(text):
+    """structure of one generated .cs file: {'balanced', 'namespaces' (opened, outermost first), 'closer_ok', 'types' [(keyword, name)],
+    'members' [dict(name, params, vis, mods, ret, body, line)] of the first type, 'depth_errors'}; comments and string literals dropped"""
+    body = strip_comments(text)
+    body = re.sub(r'"(?:[^"\\\n]|\\.)*"', '""', body)
+    res = {"balanced": True, "namespaces": [], "types": [], "members": [], "depth_min": 0}
+    depth = 0
+    type_depth = None
+    pending = None                      # a member head waiting for its '{' on the next line
+    for raw in body.split("\n"):
+        line = raw.strip()
+        opened_here = 0
+        if line:
+            if type_depth is None:
+                for m in re.finditer(r"\bnamespace\s+([\w.]*)\s*\{", line):
+                    res["namespaces"].append(m.group(1))
+                t = CS_TYPE.match(line)
+                if t:
+                    res["types"].append((t.group("kw"), re.split(r"[\s:{]", t.group("rest").strip())[0] if t.group("rest").strip() else ""))
+                    if len(res["types"]) == 1:
+                        type_depth = depth          # its '{' follows on the next line
+            elif depth == type_depth + 1 and "(" in line and not line.startswith("{") and not line.startswith("}"):
+                m = CS_MEMBER.match(line)
+                if m and "=" not in m.group("ret") and m.group("name") not in ("if", "while", "for", "return", "switch"):
+                    pending = {"name": m.group("name"), "params": norm_params(m.group("params")), "vis": m.group("vis"), "mods": m.group("mods").split(),
+                               "ret": " ".join(m.group("ret").split()), "body": False, "semi": bool(m.group("semi")), "line": line}
+                    res["members"].append(pending)
+            elif pending is not None and depth == type_depth + 1 and line.startswith("{"):
+                pending["body"] = True
+                pending = None
+        for ch in line:
+            if ch == "{":
+                depth += 1
+            elif ch == "}":
+                depth -= 1
+                res["depth_min"] = min(res["depth_min"], depth)
+        if type_depth is not None and depth <= type_depth and line.startswith("}"):
+            type_depth = -10 ** 6       # the first type is closed: nothing after it is a member
+    res["balanced"] = depth == 0 and res["depth_min"] == 0
+    closers = [l for l in text.split("\n") if "// end namespace" in l]
+    res["closers"] = [(l.split("//")[0].count("}"), l.split("// end namespace", 1)[1].strip()) for l in closers]
     return res
 
 
